@@ -55,7 +55,7 @@ def cross_process_event():
     """the displaced configurations for fixed seeds, computed in interpreter processes with different string-hash seeds"""
     import os, subprocess, sys
     ev = {"e": "Result", "kind": "c02", "raised": False, "members_ppb": [], "mean_ppb": 0, "positions_same": True, "shape_ok": True,
-          "cross_process": True}
+          "cross_process": True, "lazy_ppb": 0, "joint_ppb": []}
     try:
         outs = []
         for hs in ("0", "1", "2", "3"):
@@ -77,18 +77,26 @@ def run_case(c, kind, builder, detector, mean, rng):
     n, k = c["n"], c["ncfg"]
     atoms = small_atoms(nz=n, dz=2.0)
     ev = {"e": "Result", "kind": "c02", "raised": False, "members_ppb": [], "mean_ppb": 0, "positions_same": True, "shape_ok": True,
-          "lazy_ppb": 0}
+          "lazy_ppb": 0, "joint_ppb": []}
     sink = Sink()
     try:
         seeds = tuple([1000003, 17, 65537, 3][i % 4] + i for i in range(k))
-        if kind == "frozen_phonons":
+        if kind in ("frozen_phonons", "frozen_phonons_built"):
             fp = abtem.FrozenPhonons(atoms, num_configs=k, sigmas=0.12, seed=seeds, ensemble_mean=mean)
+        elif kind == "atoms_ensemble_labelled_built":
+            # snapshots labelled by a user axis (time stamps), built into a potential ARRAY first
+            from abtem.core.axes import NonLinearAxis
+            base = abtem.FrozenPhonons(atoms, num_configs=k, sigmas=0.12, seed=seeds)
+            fp = abtem.AtomsEnsemble(displaced_configurations(base), ensemble_mean=False,
+                                     ensemble_axes_metadata=[NonLinearAxis(label="t", units="fs", values=tuple(50.0 * i for i in range(k)))])
         else:
             base = abtem.FrozenPhonons(atoms, num_configs=k, sigmas=0.12, seed=seeds)
             fp = abtem.AtomsEnsemble(displaced_configurations(base), ensemble_mean=mean)
         ep = exit_planes_arg(c["spec"]) if builder != "prism" else None
         mk = lambda a: abtem.Potential(a, gpts=16, slice_thickness=2.0, exit_planes=ep, projection="infinite")
         pot = mk(fp)
+        if kind.endswith("_built"):
+            pot = pot.build(lazy=False)
         det = {"waves": None, "annular": abtem.AnnularDetector(inner=10, outer=40 if builder == "prism" else 60),
                "pixelated": abtem.PixelatedDetector(max_angle=None)}[detector]
         if builder == "plane":
@@ -125,10 +133,17 @@ def run_case(c, kind, builder, detector, mean, rng):
             got = positions_signature(fp, chunks, lazy)
             if len(got) != len(ref_pos) or any(not np.array_equal(a, b) for a, b in zip(got, ref_pos)):
                 ev["positions_same"] = False
-        lz = arr(wave.multislice(pot, detectors=det, lazy=True, max_batch=rng.choice([1, 2, "auto"]), **kw))
+        lz = arr(wave.multislice(mk(fp) if kind.endswith("_built") else pot, detectors=det, lazy=True, max_batch=rng.choice([1, 2, "auto"]), **kw))
         ev["lazy_ppb"] = ppb(relerr(lz, full))
-        if ev["lazy_ppb"] > 50000:
-            ev["members_ppb"].append(ev["lazy_ppb"]) if not use_mean else None
+        if kind in ("frozen_phonons", "frozen_phonons_built"):
+            # two ensembles that differ ONLY in their seeds, computed in one dask graph: each keeps its own configurations
+            import dask
+            fp2 = abtem.FrozenPhonons(atoms, num_configs=k, sigmas=0.12, seed=tuple(s + 1000 for s in seeds), ensemble_mean=mean)
+            la = wave.multislice(mk(fp), detectors=det, lazy=True, **kw)
+            lb = wave.multislice(mk(fp2), detectors=det, lazy=True, **kw)
+            ra, rb = dask.compute(la.array, lb.array, scheduler="synchronous")
+            full_b = arr(wave.multislice(mk(fp2), detectors=det, lazy=False, **kw))
+            ev["joint_ppb"] = [ppb(relerr(np.asarray(ra), full)), ppb(relerr(np.asarray(rb), full_b))]
     except Exception as ex:
         ev["raised"] = True
         ev["exc"] = f"{type(ex).__name__}: {ex}"[:300]
@@ -152,8 +167,10 @@ def run(ctx: Ctx):
     items = []
     combos = [("frozen_phonons", "plane", "waves", False), ("frozen_phonons", "probe", "annular", False), ("frozen_phonons", "probe", "pixelated", True),
               ("atoms_ensemble", "plane", "pixelated", False), ("atoms_ensemble", "probe", "annular", True), ("frozen_phonons", "plane", "pixelated", True),
-              ("frozen_phonons", "prism", "waves", False), ("frozen_phonons", "prism", "pixelated", False), ("atoms_ensemble", "prism", "annular", True)]
-    for j, c in enumerate(cases[: (27 if quick else 400)]):
+              ("frozen_phonons", "prism", "waves", False), ("frozen_phonons", "prism", "pixelated", False), ("atoms_ensemble", "prism", "annular", True),
+              ("atoms_ensemble_labelled_built", "plane", "waves", False), ("frozen_phonons_built", "probe", "annular", False),
+              ("atoms_ensemble_labelled_built", "probe", "pixelated", False)]
+    for j, c in enumerate(cases[: (36 if quick else 400)]):
         kind, builder, det, mean = combos[j % len(combos)]
         t = run_case(c, kind, builder, det, mean, rng)
         meta = {"case": c, "kind": kind, "builder": builder, "detector": det, "mean": mean}
